@@ -88,9 +88,17 @@ def _shrink_worker(args):
             prog.write_text(json.dumps(c, default=str))
             return mod.evaluate(c, drv)
 
+        def signature(d):
+            """kind of failure: a shrink step must not turn one failure into another (e.g. a wrong number into an exception)"""
+            d = d or {}
+            act = str(d.get("actual"))
+            return (str(d.get("note")), act.split(":")[0] if act.startswith(("error", "{'masked': \"('error'")) else "value")
+
+        sig0 = signature(detail)
         if cands is not None:
             def still(c, verdict=verdict):
-                return run_one(c)["verdict"] == verdict
+                r = run_one(c)
+                return r["verdict"] == verdict and signature(r.get("detail")) == sig0
             try:
                 case = common.greedy_shrink(case, cands, still, budget=shrink_budget)
             except Exception:
